@@ -312,10 +312,11 @@ def run(tier):
         # (1') operations that FAIL or only look (a refused items() over key-less data, the items() probe inside new(ds) / cache(lazy=False),
         #      len, keys, repr, indexable, ordered) do not consume random numbers: the seeded orders afterwards are those of a twin
         #      that was left alone
-        for _ in range(200 if big else 40):
+        PKINDS = ['reshuffle', 'local', 'reshuffle_local', 'lazyapply', 'lazyapply_once', 'reshuffle_map', 'reshuffle_catch', 'reshuffle_prefetch1', 'lazyapply_once_map']
+        PROBES = ['items', 'len', 'keys', 'repr', 'flags', 'getbad', 'iter_only', 'late_first', 'flags_above']
+        for kind, probe in [(k, p) for k in PKINDS for p in PROBES] * (3 if big else 1):        # every kind of stage with every probe
             n, seed = r.randint(2, 7), r.randint(0, 10 ** 6)
             keyed = r.random() < 0.4
-            kind = r.choice(['reshuffle', 'reshuffle', 'local', 'reshuffle_local', 'lazyapply', 'lazyapply_once', 'reshuffle_map', 'reshuffle_catch', 'reshuffle_prefetch1'])
 
             def mk():
                 d = ld.new({f'k{i}': i for i in range(n)} if keyed else list(range(n)))
@@ -327,9 +328,9 @@ def run(tier):
                 if kind == 'reshuffle_map': return d.shuffle(True, rng=g).map(add1)
                 if kind == 'reshuffle_catch': return d.shuffle(True, rng=g).catch()
                 if kind == 'reshuffle_prefetch1': return d.shuffle(True, rng=g).prefetch(1, 2)
+                if kind == 'lazyapply_once_map': return d.apply(lambda x, g=g: x.shuffle(False, rng=g), lazy=True).map(add1)
                 return d.shuffle(True, rng=g).shuffle(True, rng=np.random.RandomState(seed + 1), buffer_size=2)
             a, b = mk(), mk()
-            probe = r.choice(['items', 'len', 'keys', 'repr', 'flags', 'getbad', 'iter_only', 'iter_only', 'late_first'])
             if probe == 'late_first':
                 # two iterators are created, the one created LAST is advanced and finished first: an epoch draws its order when it
                 # starts to deliver, not when the iterator object is made - a twin iterated back to back gives the same two orders
@@ -350,13 +351,16 @@ def run(tier):
                     it_unused = iter(b)
                     del it_unused
                 elif probe == 'items':
-                    if keyed:
-                        continue
+                    if keyed or kind.startswith('lazyapply'):
+                        continue                # (a lazy apply runs its function - an epoch start - before it can know that key iteration is refused below)
                     list(b.items())
                 elif probe == 'len': len(b)
                 elif probe == 'keys': b.keys()
                 elif probe == 'repr': repr(b); str(b)
                 elif probe == 'flags': b.indexable; b.ordered
+                elif probe == 'flags_above':
+                    t = b.map(add1).batch(2)            # the flags of stages stacked on top are forwarded from below
+                    t.indexable; t.ordered
                 else: b['nope']
             except Exception:
                 pass
